@@ -26,7 +26,7 @@ ASSUMPTIONS = [
     "library calls in the frozen no-raise table of sa/effects.py do not raise (logging, loop.time/create_task, set/deque ops, StreamWriter.write/close/is_closing)",
     "asyncio.open_connection / drain / wait_closed raise only OSError family; CancelledError is outside the lattice",
 ]
-FLOORS = {"C07.R1": 5, "C07.R2": 7, "C07.R3": 3, "C07.R4": 5, "C07.R5": 2, "C07.R6": 3, "C07.R7": 6, "C07.R8": 3, "C07.R9": 4, "C07.R10": 1, "C07.R11": 5, "C07.R12": 1}
+FLOORS = {"C07.R1": 5, "C07.R2": 7, "C07.R3": 3, "C07.R4": 5, "C07.R5": 2, "C07.R6": 3, "C07.R7": 6, "C07.R8": 3, "C07.R9": 4, "C07.R10": 1, "C07.R11": 5, "C07.R12": 1, "C07.R13": 1}
 
 
 def run(ctx):
@@ -40,6 +40,7 @@ def run(ctx):
     r8(ctx)
     r9(ctx)
     r11(ctx)
+    r13(ctx)
     from . import c01
     from .common import reuse
 
@@ -49,6 +50,40 @@ def run(ctx):
           keep=lambda o: "rejects" in o.construct or o.verdict != "HOLDS")
     reuse(ctx, "C07.R10", [c01.r1], "a message is taken out of the queue before the attempt to write it, so one that cannot be encoded is gone when its error is handled and cannot block every later command (C01.R1)",
           keep=lambda o: "_drain_message_queue" in o.construct or o.verdict != "HOLDS")
+
+
+def r13(ctx):
+    """Codecs run synchronously inside the receive task: a `while` loop in one that does not advance blocks the whole event loop
+    (no read, no heartbeat, no reset, no timer) - the client is wedged for good by one legal frame.  Necessary condition decided
+    here: on every way round such a loop (fall-through or `continue`) a local that the loop condition reads is assigned."""
+    R = "C07.R13"
+    from ..q import _one_shot, block_paths, iter_functions
+
+    n = 0
+    for mm in ctx.repo.modules.values():
+        if ".comms" not in mm.name or mm.name.endswith(("comms.socket", "comms.heartbeat", "comms.discovery")):
+            continue
+        for qual, f_ in iter_functions(mm):
+            if isinstance(f_, ast.AsyncFunctionDef):
+                continue
+            stored = {x.id for x in ast.walk(f_) if isinstance(x, ast.Name) and isinstance(x.ctx, ast.Store)} | {a.arg for a in f_.args.args}
+            for w in [x for x in ast.walk(f_) if isinstance(x, ast.While)]:
+                if isinstance(w.test, ast.Constant) and w.test.value is True and _one_shot(w.body):
+                    continue  # the one-shot block an inlined multi-exit helper becomes (every path leaves it): not a loop
+                n += 1
+                reads = {x.id for x in ast.walk(w.test) if isinstance(x, ast.Name)} & stored
+                lab = f"{mm.name.split('pyairtouch.')[-1]}.{qual}:while({norm_text(w.test)[:40]})"
+                if not reads:
+                    ctx.check(False, R, f"{lab}:advances", mm, w, "the loop condition reads a local that the body advances", "the condition reads no local of the function")
+                    continue
+                try:
+                    paths = block_paths(w.body)
+                except AnalysisError:
+                    ctx.check(False, R, f"{lab}:advances", mm, w, "the loop body is a block of assignments and ifs", "too many paths")
+                    continue
+                stuck = [lits for lits, env, end in paths if end in ("fall", "continue") and not (reads & set(env))]
+                ctx.check(not stuck, R, f"{lab}:advances", mm, w, f"every way round the loop assigns one of {sorted(reads)} (the position moves on before the condition is tested again)", ("a way round the loop leaves the position where it was (when " + "; ".join(f"{'' if pol else 'not '}({t})" for t, pol in stuck[0]) + "): the decoder never returns and the event loop is blocked") if stuck else "")
+    ctx.holds(R, "codecs:while-loops", None, None, f"{n} `while` loops in synchronous codec functions examined (`for` loops over finite sequences end by themselves)")
 
 
 def _reset_nodes(fn: Fn):
@@ -108,6 +143,15 @@ def r1(ctx):
             via.add(rd.branch(t, "false" if present == "true" else "true").id)
         ok = g.all_paths_pass(hd.id, [g.exit.id], via, NONEXC)
         ctx.check(ok, R, "_read:loop-ends-only-without-reader", m, hd.ast, "the read loop is left normally only when self._reader is gone or after a reset", "the loop condition can end the receive task while the connection still counts as connected (no reset, no reconnect)")
+    # ... and the task reads from the moment it is started: nothing but the absence of a reader (or a reset) lets _read end
+    # before its loop.  An entry guard ("a read loop is already running") makes the loop of a new connection return while the
+    # old loop is still finishing its own reset: connected, transmitting, and deaf for ever.
+    if heads:
+        via = set(reset_ids) | {hd.id for hd in heads}
+        for t, present in rd.presence("self._reader"):
+            via.add(rd.branch(t, "false" if present == "true" else "true").id)
+        ok = g.all_paths_pass(g.entry.id, [g.exit.id], via, NONEXC)
+        ctx.check(ok, R, "_read:starts-reading-unconditionally", m, rd.node, "every normal path from the start of _read reaches the read loop (or finds no reader)", "a path returns from _read before the loop: the connection it was started for is never read")
     # falsy result -> reset
     for rn in reads:
         a = rn.ast
@@ -140,6 +184,11 @@ def r2(ctx):
         d = next((k.value for k in c.keywords if k.arg == "delay"), c.args[1] if len(c.args) > 1 else None)
         dv = ctx.repo.try_fold(m, d) if d is not None else None
         ctx.check(d is None or dv in (None, 0, 0.0) or (isinstance(dv, (int, float)) and dv <= 2.0), R, "reset_connection:reconnect-promptly", m, c, "the reconnect after a reset is scheduled without a long delay", unparse(d) if d is not None else "")
+    # who may cancel: a reset ends the connection, not the tasks.  The receive task may be in the middle of delivering a frame
+    # (suspended in a subscriber) and a sender may be half way through the queue: cancelling them from reset_connection() /
+    # _disconnect() throws away the rest of that frame / of the queue.  Only close() cancels background tasks.
+    cancels = [(q_, c_) for q_ in ("reset_connection", "_disconnect", "_connect") for _, c_ in sock_fn(ctx, q_).calls_pred(lambda d_: d_.endswith(".cancel"))]
+    ctx.check(not cancels, R, "reset_connection:cancels-nothing", m, (cancels[0][1] if cancels else rc.node), "neither reset_connection() nor _disconnect() nor _connect() cancels a task (the old read loop ends by itself when its reader is gone)", f"{cancels[0][0]}: `{norm_text(cancels[0][1])[:60]}`" if cancels else "")
     ds = sock_fn(ctx, "_disconnect")
     g = ds.cfg
     closes = [n for n, c in ds.calls("self._writer.close")]
@@ -213,6 +262,19 @@ def r3(ctx):
     for h in hs:
         bad = [x for s in h.ast.body for x in ast.walk(s) if isinstance(x, (ast.Return, ast.Raise))]
         ctx.check(not bad, R, "_connect:OSError-falls-through", m, h.ast, "the OSError handler falls through to the retry test", "return/raise inside the handler")
+        # ... and nothing evaluated inside it can raise: an exception out of the handler leaves the task before the retry is
+        # scheduled, and the retry chain ends for good (effect analysis of the handler body: subscripts, unresolved calls and
+        # awaits of foreign code count as able to raise)
+        from ..effects import EMPTY as _E, is_top as _top
+
+        esc = _E
+        worst = None
+        for s_ in h.ast.body:
+            e_ = ctx.effects.of_stmt(s_, m, con.cls)
+            if e_ != _E and worst is None:
+                worst = s_
+            esc = esc | e_ if not (_top(esc) or _top(e_)) else (e_ if _top(e_) else esc)
+        ctx.check(esc == _E, R, "_connect:OSError-handler-cannot-raise", m, (worst if worst is not None else h.ast), "nothing in the OSError handler can raise (the retry test after it is always reached)", f"`{norm_text(worst)[:80]}` may raise {'any exception' if _top(esc) else sorted(esc)}" if worst is not None else "")
 
 
 # ------------------------------------------------------------------------------------------ R4
@@ -361,6 +423,13 @@ def check_notify_isolation(ctx, R, modname, qual):
             ok = False
             found = "asyncio.gather without return_exceptions=True: the first failing subscriber aborts the caller and hides the others' results"
             break
+    if gathers and ok:
+        # what gather() collected is only looked at (logged): raising a collected result - a subscriber's exception or its
+        # CancelledError - out of the notifier aborts the caller's loop over the remaining entities of the frame
+        rr = [x for x in walk_no_nested(f.node) if isinstance(x, ast.Raise)]
+        if rr:
+            ok = False
+            found = f"`{norm_text(rr[0])[:50]}` (line {rr[0].lineno}) raises a collected result out of the notifier"
     stray = [x for x in walk_no_nested(f.node) if isinstance(x, ast.Await) and id(x) not in protected]
     ctx.check(ok and not stray, R, f"{lab}:isolation", m, f.node, "each callback is awaited inside its own try/except Exception within the loop, or all of them through asyncio.gather(..., return_exceptions=True): a failing subscriber neither stops the others nor the caller", found if not ok else (f"await outside the protection at line {stray[0].lineno}" if stray else ""))
     # the callbacks do not outlive a cancelled notifier
